@@ -33,6 +33,11 @@ fcppt::options::impl::is_flag(fcppt::string_view const &_value)
 
   ++pos;
 
+  if (pos == _value.end())
+  {
+    return result_type{std::make_pair(fcppt::options::detail::flag_is_short{true}, fcppt::string{})};
+  }
+
   return result_type{
       is_dash(*pos)
           ? std::make_pair(
